@@ -202,11 +202,17 @@ func recordPath(args []string) {
 	fs.Parse(args)
 	r := rand.New(rand.NewSource(seed()))
 	w := create(*trace)
-	ev, skipped := 0, 0
+	ev, skipped, uncompilable := 0, 0, 0
 	for _, sh := range readShapes(*schemas) {
 		ms, err := dvm.Compile(sh)
 		if err != nil {
-			die("schema %d does not compile: %v\n%s", sh.ID, err, dvm.RenderYang(sh))
+			// a sampled schema the compiler refuses is not this property's business: counted, not judged
+			if sh.ID < 1000 {
+				die("schema %d does not compile: %v\n%s", sh.ID, err, dvm.RenderYang(sh))
+			}
+			fmt.Fprintf(os.Stderr, "dv: sampled schema %d does not compile: %v\n", sh.ID, err)
+			uncompilable++
+			continue
 		}
 		seen := map[string]bool{}
 		for i := 0; i < *n; i++ {
@@ -224,7 +230,7 @@ func recordPath(args []string) {
 		}
 	}
 	w.close()
-	fmt.Printf("{\"events\":%d,\"duplicates_skipped\":%d}\n", ev, skipped)
+	fmt.Printf("{\"events\":%d,\"duplicates_skipped\":%d,\"uncompilable\":%d}\n", ev, skipped, uncompilable)
 }
 
 // ------------------------------------------------------------------ by hand
